@@ -90,11 +90,14 @@ def strip_noops(tree):
             lst = getattr(node, field, None)
             if isinstance(lst, list) and lst and isinstance(lst[0], ast.stmt):
                 kept = [st for st in lst if not _is_noop(st)]
+                removed = len(kept) != len(lst)
                 if not kept and field == 'body':
+                    if len(lst) == 1 and isinstance(lst[0], ast.Pass):
+                        continue
                     p = ast.Pass()
                     ast.copy_location(p, lst[0])
                     kept = [p]
-                if len(kept) != len(lst):
+                if removed:
                     for st in lst:
                         if _is_noop(st) and isinstance(st, ast.Expr) and isinstance(st.value, ast.Call):
                             # kept reachable for rules about expressions (attribute reads inside a tracing call
